@@ -79,6 +79,7 @@ package object
 //@ ghost objBytes(t Type, d string) string
 //@ opaque-axiom [objBytes-def] forall t Type, d string {objBytes(t, d)} :: objBytes(t, d) == objHeader(t, len(d)) + d
 //@ pred objId(t, d) := sha1(objBytes(t, d))
+//@ pred blobId(d) := objId(BlobObject, d)
 //@ pred objDir(root, h) := pjoin(pjoin(root, "objects"), bsub(hex(h), 0, 2))
 //@ pred objPath(root, h) := pjoin(objDir(root, h), bsub(hex(h), 2, len(hex(h))))
 //@ pred stored(f, root, h, t, d) := isFile(f, objPath(root, h)) && content(f, objPath(root, h)) == zlibEnc(objBytes(t, d))
@@ -182,6 +183,26 @@ package object
 //@ pred afterName(s) := splitTail(s, " <")
 //@ pred afterEmail(s) := splitTail(afterName(s), "> ")
 //@ regexp signRegexp: match(s) ==> contains(s, " <") && contains(afterName(s), "> ") && contains(afterEmail(s), " ") && len(splitTail(afterEmail(s), " ")) == 5
+
+// what cat-file -p shows of a tree (C05): one line per direct child, in order, with kind, id and the complete name,
+// joined by newlines (joinSeq is strings.Join, uninterpreted)
+//@ pred treeLine(n) := ite(len(n.Children) == 0, "100644 blob ", "040000 tree ") + hex(n.Hash) + "\t" + n.Name
+//@ func Tree.String
+//@   returns str
+//@   pure
+//@   requires treeWF(t.Children)
+//@   ensures [lines] {C05} exists ls []string :: len(ls) == len(t.Children) && (forall j int :: 0 <= j && j < len(ls) ==> ls[j] == treeLine(t.Children[j])) && str == joinSeq(ls, "\n")
+//@   loop 0:
+//@     invariant [count] len(lines) == it
+//@     invariant [lines] forall j int :: 0 <= j && j < it ==> lines[j] == treeLine(t.Children[j])
+
+// what log shows of a commit (C14): the block starts with the commit's own id and ends with its message, verbatim
+//@ func Commit.String
+//@   returns str
+//@   pure
+//@   requires c.Object != nil
+//@   ensures [id-first] {C14} hasPrefix(str, "commit " + hex(c.Hash) + "\n")
+//@   ensures [message-last] {C14} len(str) >= len(c.Message) + 3 && bsub(str, len(str) - len(c.Message) - 3, len(str)) == "\n\t" + c.Message + "\n"
 
 //@ func NewSign
 //@   returns s
